@@ -15,13 +15,16 @@ Full statement of the property on the model (`FullC11` below) and what is proved
                 the pinned `replacePackage` without its guard: pinned_replace_dangles (F11b, repaired)
   apk elements  one_element_per_apk_partial (no embedded SBOM is found, generated ids distinct);
                 negations: apk_element_lost_on_collision (F11a), apk_element_replaced_by_embedded (F11c)
-  digests       image_layers_by_digest (same hypotheses), index_describes_index
+  digests       image_layers_by_digest (same hypotheses), image_layers_by_digest_embedded (arbitrary embedded
+                SBOMs, nothing else claims the image/layer names or ids), index_describes_index
+  model         generate_never_fuel (the fuel of the closure loop always suffices)
 
 `ord` is Go's map iteration order in ProcessInternalApkSBOM; theorems hold for every `ord` that only
 yields target ids (`OrdOk`).
 -/
 import Apko.Proofs.Lemmas.SbomGen
 import Apko.Proofs.Lemmas.SbomFuel
+import Apko.Proofs.Lemmas.SbomImage
 
 namespace Apko.C11
 open Apko Apko.Sbom
@@ -379,6 +382,38 @@ theorem image_layers_by_digest {o : Opts} {fs : SbomDir} {ord : List Id → List
       exact Or.inl (Or.inl (Or.inr ⟨l, hl', rfl⟩))
     · simp only [addSourcePackage, headerBase, List.mem_append, List.mem_map]
       exact Or.inl ⟨l, hl', rfl⟩
+
+/-- **image_layers_by_digest**, with embedded SBOMs of arbitrary shape — provided nothing else in the input
+claims the names or identifiers of image and layers (no apk is named like a digest; no embedded element,
+apk or source identifier equals the image's or a layer's): the single described element is the image's
+identifier, carried by an element named by a digest of the image; every layer identifier is carried by
+such an element and is CONTAINed by the image -/
+theorem image_layers_by_digest_embedded {o : Opts} {fs : SbomDir} {ord : List Id → List Id} {d : Doc}
+    (hi : o.imageDigest.isEmpty = false)
+    (hname : ∀ a ∈ o.apks, a.name ∉ digests o) (hemb : ∀ i ∈ embeddedIds fs, i ∉ protIds o)
+    (hapk : ∀ a ∈ o.apks, apkId (nonceOf o.imageDigest) a ∉ protIds o)
+    (hsrc : sourceId o.vcsUrl ∉ protIds o) (h : generate o fs ord = .ok d) :
+    d.describes = [imageId o.imageDigest] ∧
+    (∀ i ∈ protIds o, ∃ p ∈ d.packages, p.id = i ∧ p.name ∈ digests o) ∧
+    ∀ l ∈ o.layers, (⟨imageId o.imageDigest, "CONTAINS".toList, layerId l⟩ : Rel) ∈ d.rels := by
+  unfold generate at h
+  split at h
+  · cases h
+  · split at h
+    · cases h
+    · next doc ha =>
+      cases h
+      have hp := addApks_prot _ hname hemb hapk (header_prot hi hsrc) ha
+      refine ⟨hp.desc, ?_, hp.rels⟩
+      intro i hi'
+      have : i ∈ (dedup doc.packages).map (·.id) := (dedup_ids _ i).mpr (hp.ids i hi')
+      obtain ⟨p, hpm, rfl⟩ := List.mem_map.mp this
+      exact ⟨p, hpm, rfl, hp.names p (dedup_mem hpm) hi'⟩
+
+/-- its hypotheses hold for `exOpts` with the embedded SBOM `exFS` -/
+example : (∀ a ∈ exOpts.apks, a.name ∉ digests exOpts) ∧ (∀ i ∈ embeddedIds exFS, i ∉ protIds exOpts) ∧
+    (∀ a ∈ exOpts.apks, apkId (nonceOf exOpts.imageDigest) a ∉ protIds exOpts) ∧
+    sourceId exOpts.vcsUrl ∉ protIds exOpts := by decide
 
 /-- the hypotheses are satisfiable (two layers, source, two apks with characters outside the alphabet) -/
 def exOpts2 : Opts := ⟨"sha256:ab".toList, ["sha256:cd".toList, "sha256:ef".toList], "https://x/y@12".toList, "1".toList,
